@@ -257,4 +257,169 @@ theorem c15_nonconv_witness :
      | .ok s => (s.ids, groupOf s "all", groupOf s "g0")
      | .error _ => ([], none, none)) = ([0, 1], some [0], some [1]) := by decide
 
+/-! ## the FULL group statement on the repaired tree (`fixes/C15-default-group-name.patch` applied)
+
+With the refusal in place `UserGroupNamesFresh` is no longer a hypothesis: whatever `group_id` a call that returned
+normally was given — the default group of the segment's own type included (`convStep_own`, third case of
+`inv_addSegment`) — the invariant is kept.  What remains excluded is the OPEN finding
+`group-reused-across-types` (`oneType`). -/
+
+/-- the property's quantifier plus OneTypePerGroup; nothing about group names -/
+def OpDomOne (s : State) : Op → Prop
+  | .addSegment a => a.useConv = true ∧ (∀ p, a.parent = some p → p ∈ s.ids) ∧
+      (∀ g, a.groupId = some g → ∀ seg ∈ s.segs, seg.ugroup = some g → seg.stype = parseType a.segType)
+  | .addUnbranched u => u.useConv = true ∧ (∀ p, u.parent = some p → p ∈ s.ids) ∧
+      (∀ g, u.groupId = some g → ∀ seg ∈ s.segs, seg.ugroup = some g → seg.stype = parseType u.segType)
+  | .addSegmentLex _ => False
+  | _ => True
+
+def RunDomOne (pick : State → AddSeg → Except Err Int) (opt : State → Except Err State) : State → List Op → Prop
+  | _, [] => True
+  | s, op :: ops => OpDomOne s op ∧ ∀ s', stepWith pick opt s op = .ok s' → RunDomOne pick opt s' ops
+
+theorem pick_ok_of_addSegment {pick : State → AddSeg → Except Err Int} {opt : State → Except Err State} {s s' : State} {a : AddSeg}
+    (e : addSegmentWith pick opt s a = .ok s') : ∃ id, pick s a = .ok id := by
+  unfold addSegmentWith at e
+  split at e
+  · cases e
+  split at e
+  · cases e
+  split at e
+  · cases e
+  split at e
+  · cases e
+  · rename_i id hp; exact ⟨id, hp⟩
+
+/-- a call that returned normally on the repaired tree was not given a foreign default-group name -/
+theorem opOK_of_step (idFx : Bool) (opt : State → Except Err State) (s s' : State) (op : Op) (hd : OpDomOne s op)
+    (e : stepWith (pickCfg idFx true) opt s op = .ok s') : OpOK s op := by
+  cases op with
+  | addSegment a =>
+    obtain ⟨id, hp⟩ := pick_ok_of_addSegment (a := { a with lex := false }) e
+    have hf := (pickCfg_ok (Or.inr rfl) hp).2.2.2 rfl hd.1
+    exact ⟨hd.1, hd.2.1, fun g _ => Or.inr hf, hd.2.2⟩
+  | addUnbranched u =>
+    have hf : foreignDefault (unbSeg u none 4) = false := by
+      simp only [stepWith] at e
+      unfold addUnbranchedWith at e
+      split at e
+      · cases e
+      simp only at e
+      split at e
+      · cases e
+      rename_i s2 e2
+      obtain ⟨id, hp⟩ := pick_ok_of_addSegment e2
+      exact (pickCfg_ok (Or.inr rfl) hp).2.2.2 rfl hd.1
+    exact ⟨hd.1, hd.2.1, fun g _ => Or.inr hf, hd.2.2⟩
+  | addSegmentLex a => exact absurd hd id
+  | _ => trivial
+
+theorem inv_run_dom (idFx : Bool) {opt : State → Except Err State} (ho : OptSpec opt) : ∀ (ops : List Op) (s s' : State),
+    Inv s → RunDomOne (pickCfg idFx true) opt s ops → runWith (pickCfg idFx true) opt s ops = .ok s' → Inv s'
+  | [], s, s', h, _, e => by unfold runWith at e; cases e; exact h
+  | op :: ops, s, s', h, hd, e => by
+    unfold runWith at e
+    split at e
+    · rename_i s1 e1
+      exact inv_run_dom idFx ho ops s1 s'
+        (inv_step (pickSpec_pickCfg idFx true) ho h (opOK_of_step idFx opt s s1 op hd.1 e1) e1) (hd.2 s1 e1) e
+    · cases e
+
+/-- **The group statement at full strength for the default-name repair** (formerly `_partial` under
+    `UserGroupNamesFresh`): for EVERY history in the property's quantifier that uses each user group with one segment
+    type — group ids of any spelling, the default group of the segment's own type included — whose calls all returned
+    normally on the tree with `fixes/C15-default-group-name.patch`, the cell after the final step is `Good`. -/
+theorem c15_names_fixed_full (idFx : Bool) (opt : State → Except Err State) (ho : OptSpec opt) (ops : List Op) (s s' : State)
+    (hdom : RunDomOne (pickCfg idFx true) opt init ops) (hrun : runWith (pickCfg idFx true) opt init ops = .ok s)
+    (hfin : finishWith opt s = .ok s') : Good s' :=
+  good_finish ho (inv_run_dom idFx ho ops init s inv_init hdom hrun) hfin
+
+/-- … on the tree with BOTH repairs (what `/repo` becomes), lexical id forms included, with non-negative ids -/
+theorem c15_repaired_full (cfg : Cfg) (ops : List Op) (s s' : State)
+    (hdom : RunDomOne (pickCfg true true) (optimiseAll cfg) init (ops.map delex))
+    (hrun : runWith (pickCfg true true) (optimiseAll cfg) init ops = .ok s) (hfin : finish cfg s = .ok s') :
+    Good s' ∧ ∀ seg ∈ s'.segs, 0 ≤ seg.id := by
+  rw [run_delex] at hrun
+  refine ⟨c15_names_fixed_full true _ (optSpec_optimiseAll cfg) _ s s' hdom hrun hfin, ?_⟩
+  have hpar : ∀ (l : List Op) (st : State), RunDomOne (pickCfg true true) (optimiseAll cfg) st l →
+      RunParentsOK (pickCfg true true) (optimiseAll cfg) st l := by
+    intro l
+    induction l with
+    | nil => intro _ _; trivial
+    | cons op l ih =>
+      intro st hs
+      refine ⟨?_, fun s1 e1 => ih s1 (hs.2 s1 e1)⟩
+      cases op with
+      | addSegment a => exact hs.1.2.1
+      | addUnbranched u => exact hs.1.2.1
+      | addSegmentLex a => exact hs.1
+      | _ => trivial
+  have hb := basic_run (pickSpecP_nonneg true) (optSegs_of_optSpec (optSpec_optimiseAll cfg)) _ init s basic_init
+    (hpar _ init hdom) hrun
+  have hsegs : s'.segs = s.segs := by
+    unfold finish finishWith at hfin
+    rw [(optSpec_optimiseAll cfg).segs _ _ hfin]; rfl
+  rw [hsegs]; exact hb.allP
+
+/-- the hypotheses are satisfiable on a history that uses the default group of the segment's own type as `group_id`
+    (twice), another user group, and a lexical id form -/
+def ownDefaultOps : List Op :=
+  [seg (some "soma_group") "soma" none, seg (some "soma_group") "soma" (some 0) none false false,
+   seg (some "dend_0") "dendrite" (some 1),
+   .addSegmentLex { prox := .ok, segId := some 7, name := none, parent := some 0, frac4 := 2, groupId := some "axon_group",
+                    useConv := true, segType := some "axon", reorder := false, optimise := true }]
+
+def opDomOneB (s : State) : Op → Bool
+  | .addSegment a => a.useConv && (match a.parent with | some p => decide (p ∈ s.ids) | none => true) &&
+      (match a.groupId with
+       | some g => s.segs.all (fun seg => decide (seg.ugroup = some g → seg.stype = parseType a.segType))
+       | none => true)
+  | .addUnbranched u => u.useConv && (match u.parent with | some p => decide (p ∈ s.ids) | none => true) &&
+      (match u.groupId with
+       | some g => s.segs.all (fun seg => decide (seg.ugroup = some g → seg.stype = parseType u.segType))
+       | none => true)
+  | .addSegmentLex _ => false
+  | _ => true
+
+theorem opDomOneB_sound {s : State} {op : Op} (h : opDomOneB s op = true) : OpDomOne s op := by
+  cases op with
+  | addSegment a =>
+    simp only [opDomOneB, Bool.and_eq_true] at h
+    refine ⟨h.1.1, ?_, ?_⟩
+    · intro p hp; have := h.1.2; rw [hp] at this; simpa using this
+    · intro g hg seg hseg; have := h.2; rw [hg] at this
+      simp only [List.all_eq_true, decide_eq_true_eq] at this; exact this seg hseg
+  | addUnbranched u =>
+    simp only [opDomOneB, Bool.and_eq_true] at h
+    refine ⟨h.1.1, ?_, ?_⟩
+    · intro p hp; have := h.1.2; rw [hp] at this; simpa using this
+    · intro g hg seg hseg; have := h.2; rw [hg] at this
+      simp only [List.all_eq_true, decide_eq_true_eq] at this; exact this seg hseg
+  | addSegmentLex a => cases h
+  | _ => trivial
+
+def runDomOneB (pick : State → AddSeg → Except Err Int) (opt : State → Except Err State) : State → List Op → Bool
+  | _, [] => true
+  | s, op :: ops => opDomOneB s op && (match stepWith pick opt s op with | .ok s' => runDomOneB pick opt s' ops | .error _ => true)
+
+theorem runDomOneB_sound (pick : State → AddSeg → Except Err Int) (opt : State → Except Err State) :
+    ∀ (ops : List Op) (s : State), runDomOneB pick opt s ops = true → RunDomOne pick opt s ops
+  | [], _, _ => trivial
+  | op :: ops, s, h => by
+    unfold runDomOneB at h
+    simp only [Bool.and_eq_true] at h
+    refine ⟨opDomOneB_sound h.1, ?_⟩
+    intro s' e
+    have h2 := h.2
+    rw [e] at h2
+    exact runDomOneB_sound pick opt ops s' h2
+
+example : RunDomOne (pickCfg true true) (optimiseAll repaired) init (ownDefaultOps.map delex) :=
+  runDomOneB_sound _ _ _ _ (by decide)
+example : (match runWith (pickCfg true true) (optimiseAll repaired) init ownDefaultOps with
+    | .ok s => (match finish repaired s with
+      | .ok s' => (s'.ids, groupOf s' "soma_group", groupOf s' "axon_group", groupOf s' "all")
+      | .error _ => ([], none, none, none))
+    | .error _ => ([], none, none, none)) = ([0, 1, 2, 7], some [0, 1], some [7], some [0, 1, 2, 7]) := by decide
+
 end NmlVerif.Builder
